@@ -170,7 +170,8 @@ def encode(e, tid, n):
     elif k == "wtake":
         o.update(fn=e["fn"], sn=e["sn"], corr=_s(e["corr"]), inv=e["n"], outcome=_s(e["outcome"]))
     elif k == "sm":
-        o.update(arn=_s(e["arn"]), smtype=e["smtype"], mc=[{"state": _s(a), "n": b} for a, b in e.get("mc", [])])
+        o.update(arn=_s(e["arn"]), smtype=e["smtype"], mc=[{"state": _s(a), "n": b} for a, b in e.get("mc", [])],
+                 succ=[{"state": _s(a), "to": [_s(x) for x in b]} for a, b in e.get("succ", [])])
     elif k == "escaped":
         o.update(err=_s(e["err"]))
     elif k == "histapi":
